@@ -18,29 +18,45 @@ open DynasmVerif.Conc
 
 /-- the shared slot never holds a writable mapping -/
 theorem shared_never_writable (s : State) (h : Inv s) (b : Buf) (hb : s.slot = some b) : b.prot = .rx := by
-  obtain ⟨_, _, hpc⟩ := h
-  obtain ⟨pc, writer, readers, slot, own, done, executors⟩ := s
+  obtain ⟨_, _, hpc, _⟩ := h
+  obtain ⟨pc, writer, readers, slot, own, done, executors, poisoned⟩ := s
   cases pc <;> simp_all [pcInv, good] <;> (try (obtain ⟨_, _, rfl⟩ := hpc; rfl)) <;> (try (cases hb; rfl))
+  · obtain ⟨_, _, _, h4⟩ := hpc
+    rcases h4 with h4 | h4 <;> (subst h4; rfl)
 
 /-- a writable mapping exists only in the assembling thread's hands, and then either the write guard is held or the mapping is
 the fresh one of a growing commit (never shared so far) -/
 theorem writable_is_private (s : State) (h : Inv s) (b : Buf) (hb : s.own = some b) (hw : b.prot = .rw) :
     s.writer = true ∨ (s.pc = .gAlloc ∨ s.pc = .gCopied ∨ s.pc = .gAdjusted) := by
-  obtain ⟨_, _, hpc⟩ := h
-  obtain ⟨pc, writer, readers, slot, own, done, executors⟩ := s
+  obtain ⟨_, _, hpc, _⟩ := h
+  obtain ⟨pc, writer, readers, slot, own, done, executors, poisoned⟩ := s
   cases pc <;> simp_all [pcInv, good]
 
 /-- whenever a reader is inside, or could enter, the buffer it reaches is executable and not writable -/
-theorem reader_sees_rx (s : State) (h : Inv s) (hw : s.writer = false) : ∃ b, s.slot = some b ∧ b.prot = .rx := by
-  obtain ⟨_, _, hpc⟩ := h
-  obtain ⟨pc, writer, readers, slot, own, done, executors⟩ := s
+theorem reader_sees_rx (s : State) (h : Inv s) (hw : s.writer = false) (hp : s.poisoned = false) : ∃ b, s.slot = some b ∧ b.prot = .rx := by
+  obtain ⟨_, _, hpc, _⟩ := h
+  obtain ⟨pc, writer, readers, slot, own, done, executors, poisoned⟩ := s
   cases pc <;> simp_all [pcInv, good]
 
-/-- the unmapped placeholder (`ExecutableBuffer::default()`) is in the slot only under the write guard -/
-theorem slot_empty_only_under_write_lock (s : State) (h : Inv s) (he : s.slot = none) : s.writer = true := by
-  obtain ⟨_, _, hpc⟩ := h
-  obtain ⟨pc, writer, readers, slot, own, done, executors⟩ := s
+/-- the unmapped placeholder (`ExecutableBuffer::default()`) is in the slot only under the write guard — or behind a poisoned lock,
+after the assembling thread died with the buffer taken out: then no `read()` succeeds any more (`poisoned_lock_grants_nothing`) -/
+theorem slot_empty_only_under_write_lock (s : State) (h : Inv s) (he : s.slot = none) : s.writer = true ∨ s.poisoned = true := by
+  obtain ⟨_, _, hpc, _⟩ := h
+  obtain ⟨pc, writer, readers, slot, own, done, executors, poisoned⟩ := s
   cases pc <;> simp_all [pcInv, good]
+
+/-- a poisoned lock grants no guard, for ever: what an abandoned commit or alteration left in the slot is never observed -/
+theorem poisoned_lock_grants_nothing (s : State) (hp : s.poisoned = true) : step s .rlock = none := by
+  simp [step, canRead, hp]
+
+theorem poison_is_permanent (s s' : State) (a : Act) (hp : s.poisoned = true) (hs : step s a = some s') : s'.poisoned = true := by
+  obtain ⟨pc, writer, readers, slot, own, done, executors, poisoned⟩ := s
+  simp only at hp; subst hp
+  cases a <;> cases pc <;> simp [step, canWrite, canRead, setProt] at hs <;>
+    first
+    | (obtain ⟨hc, rfl⟩ := hs; rfl)
+    | (subst hs; rfl)
+    | (split at hs <;> simp only [Option.some.injEq] at hs <;> subst hs <;> rfl)
 
 /-- what finalize returns is the committed executable buffer -/
 theorem finalize_returns_rx (s : State) (h : Inv s) (hp : s.pc = .finalized) : s.slot = some ⟨.rx, s.done, true⟩ := by
@@ -50,5 +66,7 @@ theorem finalize_returns_rx (s : State) (h : Inv s) (hp : s.pc = .finalized) : s
 
 /-! ## non-vacuity -/
 example : (run (init 1) [.startAlter, .step, .step, .step]).map (fun s => (s.writer, s.slot, s.own)) = some (true, none, some ⟨.rw, 0, true⟩) := by decide
+/-- the assembling thread dies inside an alteration: the placeholder stays in the slot, the lock is poisoned, no reader gets in -/
+example : (run (init 1) [.startAlter, .step, .step, .step, .abort]).map (fun s => (s.slot, s.poisoned, step s .rlock)) = some (none, true, none) := by decide
 
 end DynasmVerif.C08
